@@ -2,7 +2,7 @@
 import ast
 import numpy as np
 from ..core import AnalysisError
-from ..tables import fold, run_body, as_matrix, NotFoldable, REF_CONST, REF_ROT, SAMPLES, close, ctrl, NumMod
+from ..tables import Fold, fold, run_body, as_matrix, NotFoldable, REF_CONST, REF_ROT, SAMPLES, close, ctrl, NumMod
 from ..objsim import explore, Inst, RaisesError, Unsupported as SimUnsupported, Sym, mk
 from ..generic import instances
 from .. import shape
@@ -96,6 +96,26 @@ def check_tables(ctx):
     ctx.need(arr is not None, "Controlled.__init__ does not build `array`")
     ok = close(arr.reshape(4, 4), ctrl(U.T).T)          # in [in, out] order: diag(1, U[in, out])
     ctx.ob("R11.1", GATES + ".Controlled.__init__:blocks", ok, found=np.round(arr, 3).tolist(), required="|0><0| ⊗ 1 + |1><1| ⊗ U in [in, out] order", mod=GATES, node=fn, sig="controlled-blocks")
+    # a daggered target keeps the array of the gate it is the dagger of (flag style): the block must be the adjoint of that array
+    te = local.get("_target_expr")
+    if isinstance(te, ast.IfExp):
+        cp = fn.args.args[1].arg
+        t = te.test
+        neg = isinstance(t, ast.UnaryOp) and isinstance(t.op, ast.Not)
+        flag_test = ast.unparse(t.operand if neg else t) in (cp + ".is_dagger", cp + "._dagger")
+        plain, dag = (te.body, te.orelse) if neg else (te.orelse, te.body)
+        V = np.array([[0.2 - 0.5j, 0.9j], [0.4, -0.3 + 0.6j]])
+        try:
+            got = Fold({cp + ".dagger().array": V, cp + ".array": V, "numpy": NumMod}).visit(dag)
+            okd = flag_test and ast.unparse(plain) == cp + ".array" and isinstance(got, np.ndarray) and close(got, V.conj().T)
+            found = "daggered target: %s evaluates to %s of the undaggered array" % (ast.unparse(dag), "the adjoint" if isinstance(got, np.ndarray) and close(got, V.conj().T) else
+                                                                                      "the transpose" if isinstance(got, np.ndarray) and close(got, V.T) else "the conjugate" if isinstance(got, np.ndarray) and close(got, V.conj()) else "something else")
+        except NotFoldable as e:
+            raise AnalysisError("Controlled.__init__: the block of a daggered target is outside the foldable vocabulary: %s" % e)
+        ctx.ob("R11.3", GATES + ".Controlled.__init__:daggered-target", okd, found=found, required="the conjugate transpose of the array of the gate the target is the dagger of", mod=GATES, node=te, sig="controlled-dagger-block")
+    else:
+        ctx.ob("R11.3", GATES + ".Controlled.__init__:daggered-target", False, found=ast.unparse(te) if te is not None else None, required="a daggered target (same array, flag set) contributes the adjoint of its array", mod=GATES, node=fn,
+               sig="controlled-dagger-block")
 
 
 def closed_form(ctx, cname):
@@ -415,6 +435,7 @@ def check(ctx):
     check_eval_and_states(ctx)
     check_rewire(ctx)
     ctx.rule("R11.7", "the pure evaluation is the tensor functor whose loop invariant and flag discipline are decided by C09; bras, kets and gates are daggered as C02 R02.4 requires")
+    ctx.depend("R11.7", "C10", "rewire conjugates the gate by Box.permutation, circuits are permuted with Circuit.swap / permutation: each realises the requested permutation", mod="discopy.monoidal")
     ctx.depend("R11.7", "C09", "eval() applies tensor.Functor layer by layer: each box is contracted on the axes of its own wires", rules={"R09.1", "R09.2"}, mod="discopy.tensor")
     from .c02 import check_daggers
     check_daggers(ctx, modules={GATES}, rule="R11.7", kinds=("types", "involution", "raises", "not-a-box", "flag", "involution-raises"))
